@@ -275,6 +275,23 @@ func (in *Interp) call(st *State, call *ast.CallExpr) Val {
 		}
 	}
 
+	// (*big.Int).FillBytes(buf) panics when the magnitude does not fit: a bounds obligation
+	// (BitLen+7)/8 <= len(buf), and the result is the buffer it was given
+	if f.FullName() == "(*math/big.Int).FillBytes" && len(args) == 1 {
+		if se, ok := unparen(call.Fun).(*ast.SelectorExpr); ok {
+			if bv, ok := args[0].(BufV); ok && st.bufs[bv.ID] != nil {
+				need := Div(Opq("call:"+in.render(st, se.X)+".BitLen()").AddC(7), Const(8))
+				sInfo := &Site{Kind: "fill", Buf: in.bufName(st, bv), Origin: st.bufs[bv.ID].Origin, Pos: call.Pos(), Fn: in.fi.Key, Guard: in.guard(), Expr: call}
+				sInfo.Text = in.render(nil, call)
+				sInfo.Needs = append(sInfo.Needs, Need{A: need, B: in.limit(st, bv), What: "magnitude fits the buffer (FillBytes panics otherwise)"})
+				sInfo.Facts = append([]Fact(nil), st.facts...)
+				if !in.noSites {
+					in.addSite(sInfo)
+				}
+				return bv
+			}
+		}
+	}
 	// in-module helpers: inline when shallow
 	if fi := in.w.FuncOf(f); fi != nil && in.depth < maxInline && !in.recursing(fi) {
 		return in.inlineFunc(st, fi, recvVal, args, call)
@@ -1131,6 +1148,9 @@ func joinVals(guard string, a []Val, b Val) Val {
 		bi, bok := bs[i].(IntV)
 		if aok && bok {
 			out[i] = IntV{Ite(guard, ai.T, bi.T)}
+		} else if alt, ok := altOf(a[i], bs[i]); ok {
+			// one of several objects (a dispatcher written as a helper that returns from each case)
+			out[i] = alt
 		} else {
 			out[i] = bs[i]
 		}
@@ -1160,4 +1180,49 @@ func (in *Interp) zeroOf(st *State, t types.Type) Val {
 		return in.newObj(t)
 	}
 	return UnkV{"zero"}
+}
+
+// altOf joins two object-valued results into a one-of value.
+func altOf(a, b Val) (Val, bool) {
+	var alts []ObjV
+	mayNil := false
+	add := func(v Val) bool {
+		switch x := v.(type) {
+		case ObjV:
+			for _, o := range alts {
+				if o.Path == x.Path {
+					return true
+				}
+			}
+			alts = append(alts, x)
+		case AltV:
+			for _, o := range x.Alts {
+				dup := false
+				for _, p := range alts {
+					if p.Path == o.Path {
+						dup = true
+					}
+				}
+				if !dup {
+					alts = append(alts, o)
+				}
+			}
+			mayNil = mayNil || x.MayNil
+		case MaybeV:
+			alts = append(alts, x.V)
+			mayNil = true
+		case NilV:
+			mayNil = true
+		default:
+			return false
+		}
+		return true
+	}
+	if !add(a) || !add(b) || len(alts) == 0 {
+		return nil, false
+	}
+	if len(alts) == 1 && !mayNil {
+		return alts[0], true
+	}
+	return AltV{Alts: alts, MayNil: mayNil}, true
 }
